@@ -54,6 +54,16 @@ def simparams (j : Json) : R Json := do
   let during := (estimateRamanGainParams lower dflt ramanOn s0).1
   return jObj [("before", jState s0), ("during", jState during), ("after", jState (estimateMany lower dflt ramanOn k s0))]
 
-def handlers : List (String × Handler) := [("c17.export", exportH), ("c17.simparams", simparams)]
+/-- does `network_from_json` accept the document (all connection ends are elements)? -/
+def reload (j : Json) : R Json := do
+  let uids ← fList getStr j "uids"
+  let cxs ← fList (fun c => do
+    match ← getArr c with
+    | [a, b] => return ((← getStr a), (← getStr b))
+    | _ => throw "connection pair expected") j "connections"
+  return if reloadAccepts uids cxs then jObj [("ok", jBool true)] else jObj [("error", jStr "NetworkTopologyError")]
+
+def handlers : List (String × Handler) :=
+  [("c17.export", exportH), ("c17.simparams", simparams), ("c17.reload", reload)]
 
 end Gnpy.Drv.C17
